@@ -6,6 +6,9 @@ CONSTANTS
  Margin = 4
  Variants <- V_canon
  NaiveMaxP = 0
+ NaiveVariants <- None
+ NbrMaxP = 0
+ NbrVariants <- None
  Mode = "needs"
  CheckArith = FALSE
  SortedBases = TRUE
